@@ -190,3 +190,55 @@ Section Hooks.
     cbn [omap]. now rewrite inter_order_src_agree.
   Qed.
 End Hooks.
+
+(* ---- subclasscheck's generic-alias branch as regenerated from the source ---- *)
+Lemma gen_sub_src_agree : forall osub plain n1 n2 ok, gen_sub_src osub plain n1 n2 ok = gen_sub_decide osub plain n1 n2 ok.
+Proof.
+  intros osub plain n1 n2 ok.
+  first [reflexivity
+        | unfold gen_sub_src, gen_sub_decide; destruct osub, plain, ok;
+          destruct (Nat.eqb n1 n2) eqn:E; destruct (Nat.ltb n1 n2) eqn:L1; destruct (Nat.ltb n2 n1) eqn:L2;
+          destruct (Nat.leb n1 n2) eqn:G1; destruct (Nat.leb n2 n1) eqn:G2; cbn; try reflexivity;
+          exfalso;
+          repeat match goal with
+                 | H : Nat.eqb _ _ = true |- _ => apply Nat.eqb_eq in H
+                 | H : Nat.eqb _ _ = false |- _ => apply Nat.eqb_neq in H
+                 | H : Nat.ltb _ _ = true |- _ => apply Nat.ltb_lt in H
+                 | H : Nat.ltb _ _ = false |- _ => apply Nat.ltb_ge in H
+                 | H : Nat.leb _ _ = true |- _ => apply Nat.leb_le in H
+                 | H : Nat.leb _ _ = false |- _ => apply Nat.leb_gt in H
+                 end; lia].
+Qed.
+
+Section GenBranch.
+  Variable sub : nat -> nat -> bool.
+  Variable hasm : nat -> nat -> bool.
+  Variable chk : nat -> nat -> bool.
+  Variable sub_fresh : nat -> bool.
+
+  (* a parametrised generic on the right (no hook there): the model's subclasscheck is the decision of the source, with
+     the origin test and the argument-wise tests put back in *)
+  Theorem gen_branch_decides : forall (rec : ty -> ty -> option bool) t1 o2 a2,
+    ty_eqb t1 (Gen o2 a2) = false ->
+    subck_body sub hasm chk sub_fresh rec t1 (Gen o2 a2) =
+      let o1' := match t1 with Gen o _ => Cls o | _ => t1 end in
+      let a1 := match t1 with Gen _ a => a | _ => [] end in
+      match issub_cls sub sub_fresh o1' o2 with
+      | None => None
+      | Some osub =>
+          if osub && Nat.eqb (length a1) (length a2)
+          then omap (fun ok => gen_sub_src osub false (length a1) (length a2) ok) (oforall2 rec a1 a2)
+          else Some (gen_sub_src osub false (length a1) (length a2) false)
+      end.
+  Proof.
+    intros rec t1 o2 a2 Hne. unfold subck_body. rewrite Hne. cbn [supck].
+    cbv zeta. destruct (issub_cls sub sub_fresh match t1 with Gen o _ => Cls o | _ => t1 end o2) as [[|]|].
+    - first [reflexivity |
+        cbn [andb]; destruct (Nat.eqb (length match t1 with Gen _ a => a | _ => [] end) (length a2)) eqn:E;
+        [ destruct (oforall2 rec match t1 with Gen _ a => a | _ => [] end a2) as [ok|]; [|reflexivity];
+          cbn [omap]; rewrite gen_sub_src_agree; unfold gen_sub_decide; now rewrite E
+        | rewrite gen_sub_src_agree; unfold gen_sub_decide; now rewrite E ]].
+    - first [reflexivity | cbn [andb]; rewrite gen_sub_src_agree; reflexivity].
+    - reflexivity.
+  Qed.
+End GenBranch.
